@@ -425,7 +425,9 @@ class Service(object):
             if caching_enabled:
                 self.cache.store_address(address, last_block, last_txid=last_txid, txs_complete=True)
                 for t in all_txs:
-                    self.cache.store_transaction(t, commit=False)
+                    # Stop at first transaction which cannot be cached, later transactions would hide it in the next query
+                    if self.cache.store_transaction(t, commit=False) is False:
+                        break
                 self.cache.commit()
         return all_txs
 
